@@ -8,6 +8,7 @@ import (
 	"sort"
 	"strings"
 	"sync"
+	"time"
 
 	"github.com/99designs/gqlgen/graphql"
 
@@ -173,6 +174,10 @@ func (e *Env) fabricate(t reflect.Type, path, field, outcome string) reflect.Val
 	case reflect.Float64:
 		return reflect.ValueOf(float64(LeafInt(objPath, field)) + 0.5)
 	case reflect.Ptr:
+		if t.Elem() == reflect.TypeOf(time.Time{}) {
+			v := LeafTime
+			return reflect.ValueOf(&v)
+		}
 		if t.Elem().Kind() == reflect.Struct {
 			return e.object(t, path)
 		}
@@ -180,6 +185,9 @@ func (e *Env) fabricate(t reflect.Type, path, field, outcome string) reflect.Val
 		p.Elem().Set(e.fabricate(t.Elem(), path, field, outcome))
 		return p
 	case reflect.Struct:
+		if t == reflect.TypeOf(time.Time{}) {
+			return reflect.ValueOf(LeafTime)
+		}
 		return e.object(reflect.PtrTo(t), path).Elem()
 	case reflect.Interface:
 		impl := e.DefaultImpl
@@ -204,11 +212,20 @@ func (e *Env) fabricate(t reflect.Type, path, field, outcome string) reflect.Val
 		for i := 0; i < n; i++ {
 			ep := elemPath(path, i)
 			et := t.Elem()
-			if nilable(et) && e.Plan.Get(ep) == "null" {
-				continue
+			eo := e.Plan.Get(ep)
+			if eo == "null" && (nilable(et) || et == reflect.TypeOf(time.Time{})) {
+				continue // nil element / zero time
 			}
-			if et.Kind() == reflect.Ptr && et.Elem().Kind() == reflect.Struct || et.Kind() == reflect.Interface || et.Kind() == reflect.Struct {
-				s.Index(i).Set(e.fabricate(et, ep, field, "value"))
+			if et == reflect.TypeOf(time.Time{}) {
+				s.Index(i).Set(reflect.ValueOf(LeafTime))
+			} else if et == reflect.TypeOf(&time.Time{}) {
+				v := LeafTime
+				s.Index(i).Set(reflect.ValueOf(&v))
+			} else if et.Kind() == reflect.Ptr && et.Elem().Kind() == reflect.Struct || et.Kind() == reflect.Interface || et.Kind() == reflect.Struct {
+				if eo != "alt" {
+					eo = "value"
+				}
+				s.Index(i).Set(e.fabricate(et, ep, field, eo))
 			} else {
 				// leaf elements: same convention as the reference (object path + field name)
 				s.Index(i).Set(e.fabricate(et, path, field, "value"))
